@@ -769,6 +769,47 @@ def gen_pairing(seed, big):
     return out
 
 
+# ---- the same documents under other spellings (delimiters, tag names) -------------------------------------------------
+# Every generator above that writes its documents with '<' '>' and the default tag names is ALSO run with the documents
+# and the configuration rewritten consistently to other delimiter pairs / tag names; the real crate's answer is mapped
+# back before the generator's own oracle looks at it. (This is the C18 idea used as a source of inputs only.)
+RESPELL = [('【', '】', '期限', 'マーカー'), ('<!-- <', '> -->', 'tl', 'rm-x'), ('<<', '>>', 'time-limited', 'removal-marker'), ('[% ', ' %]', 'expire', 'flag')]
+
+
+def respell(req, k):
+    """-> (new request, map_back) or None when the document cannot be rewritten unambiguously"""
+    if req.get('ds') != '<' or req.get('de') != '>' or req.get('mode') not in ('clean', 'list', 'list_json', 'list_all', 'list_all_json'):
+        return None
+    if req.get('tl_tag') != TL or req.get('rm_tag') != RM:
+        return None
+    ds, de, tl, rm = RESPELL[k % len(RESPELL)]
+    src = req['source']
+    if any(ch in src for ch in set(ds + de) - set('<> /')) or tl in src.replace(TL, '') or rm in src.replace(RM, ''):
+        return None
+    # tag names only directly behind a delimiter (optionally '/'), delimiters only as delimiters
+    import re as _re
+    if _re.search(r'(?<![</])(?:' + _re.escape(TL) + '|' + _re.escape(RM) + ')', src):
+        return None
+    new = src.replace('</' + TL, '\x00c' + 'T').replace('</' + RM, '\x00c' + 'R').replace('<' + TL, '\x00o' + 'T').replace('<' + RM, '\x00o' + 'R')
+    new = new.replace('<', '\x00<').replace('>', '\x00>')
+    new = (new.replace('\x00cT', ds + '/' + tl).replace('\x00cR', ds + '/' + rm).replace('\x00oT', ds + tl).replace('\x00oR', ds + rm)
+              .replace('\x00<', ds).replace('\x00>', de))
+    nreq = dict(req, source=new, ds=ds, de=de, tl_tag=tl, rm_tag=rm)
+    def back(text):
+        t = text.replace(ds + '/' + tl, '</' + TL).replace(ds + '/' + rm, '</' + RM).replace(ds + tl, '<' + TL).replace(ds + rm, '<' + RM)
+        return t.replace(ds, '<').replace(de, '>') if ds != de else _back_same(t, ds)
+    return nreq, back
+
+
+def _back_same(t, d):
+    # identical start and end delimiter: occurrences alternate open / close
+    parts = t.split(d)
+    out = parts[0]
+    for i, x in enumerate(parts[1:]):
+        out += ('<' if i % 2 == 0 else '>') + x
+    return out
+
+
 GENERATORS = {
     'C01': [gen_totality], 'C04': [gen_identity, gen_identity_unwrappable, gen_identity_unrecognised], 'C07': [gen_partition], 'C08': [gen_recognition], 'C05': [gen_expiry], 'C06': [gen_marker],
     'C09': [gen_grammar], 'C10': [gen_pairing], 'C02': [gen_blocks, gen_inline], 'C03': [gen_blocks, gen_inline], 'C11': [gen_blocks, gen_unwrap_wrappers], 'C17': [gen_list_all],
@@ -789,6 +830,27 @@ def run(prop, drive, seed=0, big=False):
         if pairs:
             outs2 = drive([dict({k: v for k, v in reqs[i].items() if not k.startswith('_')}, mode=reqs[i]['_pair']) for i in pairs])
             extra = dict(zip(pairs, outs2))
+        # respelled variants (every case in the thorough tier, every third one otherwise)
+        extra_cases = []
+        for i, (req, oracle) in enumerate(cases):
+            if isinstance(oracle, tuple) or not (big or i % 3 == 0):
+                continue
+            rs = respell(req, i + seed)
+            if rs:
+                extra_cases.append((rs[0], oracle, rs[1], req))
+        if extra_cases:
+            outs_x = drive([{k: v for k, v in c[0].items() if not k.startswith('_')} for c in extra_cases])
+            n += len(extra_cases)
+            for (nreq, oracle, back, oreq), resp in zip(extra_cases, outs_x):
+                mapped = dict(resp)
+                if isinstance(resp.get('output'), str):
+                    mapped['output'] = back(resp['output'])
+                why = oracle(mapped)
+                if why:
+                    hits.append({'input': {k: v for k, v in nreq.items() if not k.startswith('_')}, 'observed': resp,
+                                 'why': why + f' [document respelled with delimiters {nreq["ds"]!r} {nreq["de"]!r} and tag names {nreq["tl_tag"]!r} {nreq["rm_tag"]!r}; the oracle saw the answer mapped back]'})
+                    if len(hits) >= 5:
+                        return n, hits
         for i, ((req, oracle), resp) in enumerate(zip(cases, outs)):
             if isinstance(oracle, tuple):
                 why = None
